@@ -206,7 +206,11 @@ def forced_purge_not_skipped(ctx, R, prog):
     for name, work in (("mi_arenas_try_purge", "mi_arena_try_purge"), ("mi_arena_try_purge", "mi_arena_purge_range")):
         f = prog.fn(name)
         cfg = f.cfg
-        force = next((f.param_id(k) for k, p in enumerate(f.d["params"]) if p["n"] == "force"), None)
+        # the force flag by role: the only bool parameter, or the bool parameter that is handed on to the worker
+        bools = [f.param_id(k) for k, p in enumerate(f.d["params"]) if p["t"] in ("_Bool", "bool")]
+        if len(bools) > 1:
+            bools = [d for d in bools if any(rl.var_of(f, a) == d for c in f.calls(work) for a in f.nodes[c]["args"])]
+        force = bools[0] if len(bools) == 1 else None
         exps = {dd["d"] for _, dd in rl.local_decl(f, lambda dd: "init" in dd and any(f.nodes[x]["k"] == "AtomicExpr" and "expire" in f.text(f.nodes[x]["ptr"]) for x in f.walk(dd["init"])))}
         if force is None or not exps:
             raise AnalysisBroken("forced purge rule: force parameter / expiry local not found in %s" % name)
